@@ -33,6 +33,7 @@ THEOREMS = [
     "NfcVerif.C11.agf_locality",
     "NfcVerif.C11.decode_at_locality",
     "NfcVerif.C11.nested_eq_decode",
+    "NfcVerif.C11.pdu_impl_refines_spec_partial",
 ]
 
 SIMPLE = ["symm", "pax", "ui", "connect", "disc", "cc", "dm", "frmr", "snl", "dps", "i", "rr", "rnr", "unknown"]
@@ -408,13 +409,33 @@ def run(ck):
         flush()
     n3 = 0
     if T:
+        # all 2^24 strings of three octets: lean loop (real decode + reference reading + model), counted in bulk
+        spec_x = set([0, 1, 2, 3, 5, 0x0F, 0x10, 0x40, 0x41, 0x7F, 0x80, 0xFF] + [rng.randrange(256) for _ in range(20)])
         for a in range(256):
             for c in range(256):
                 h = bytes([a, c])
                 for x in range(256):
-                    dec_case(h + bytes([x]), "dec:exhaustive3")
+                    b3 = h + bytes([x])
+                    try:
+                        real = "ok " + R.text(R.from_obj(P, P.decode(b3)))
+                    except P.DecodeError:
+                        real = "exc DecodeError"
+                    except Exception as e:  # noqa
+                        real = "exc " + exc_name(e)
+                        ck.fail("decode-internal-exception", "decode(%s) raised %s" % (b3.hex(), real[4:]), {"octets": b3.hex()})
+                    ref = R.ref_decode(b3)
+                    if ("exc DecodeError" if ref is None else "ok " + R.text(ref)) != real and real[4:] not in INTERNAL:
+                        ck.fail("decode-differs-from-format", "decode(%s) = %s, LLCP frame format reading gives %s"
+                                % (b3.hex(), real, "exc DecodeError" if ref is None else R.text(ref)), {"octets": b3.hex()})
+                    hexs = b3.hex()
+                    pending.append(("dec " + hexs, real, {"octets": hexs}))
+                    if x in spec_x and real[4:] not in INTERNAL:
+                        pending.append(("spec " + hexs, real, {"octets": hexs}))
             n3 += 65536
             flush()
+        ck.evals += n3
+        ck.count("dec:exhaustive3", n3)
+        ck.notes.append("the %d three-octet strings are counted in evaluations but not hashed into distinct_nontrivial" % n3)
     else:
         for _ in range(30000):
             dec_case(rbytes(rng, 3), "dec:3-octets")
